@@ -185,6 +185,21 @@ def call_requests(rng, sigs, n):
                     b = rng.random() < 0.5
                     args.append(b)
                     rendered.append("true" if b else "false")
+                elif s.startswith("O3:"):
+                    # a list of Optional[<NamedTuple with three int fields>] (NpuAddressRange, ...)
+                    import ethosu.vela.api as api
+                    cls = getattr(api, s[3:])
+                    xs, rs = [], []
+                    for _i in range(rng.randrange(0, 6)):
+                        if rng.random() < 0.3:
+                            xs.append(None)
+                            rs.append("None")
+                        else:
+                            t = (rng.randrange(0, 3), rng.randrange(0, 200), rng.randrange(0, 60))
+                            xs.append(cls(*t))
+                            rs.append("(" + ",".join(f"py:{v}" for v in t) + ")")
+                    args.append(xs)
+                    rendered.append("[" + ";".join(rs) + "]")
                 else:
                     xs = [rng.randrange(0, 2 ** 32) for _ in range(rng.randrange(0, 9))]
                     args.append(list(xs))
@@ -196,7 +211,7 @@ def call_requests(rng, sigs, n):
                 big = [a for a in args[1:] if isinstance(a, int) and abs(a) > 2 ** 20]
                 if big and fn != "make_da_tag":
                     continue
-            lists = [a for a in args if isinstance(a, list)]
+            lists = [a for a in args if isinstance(a, list)] if "O3:" not in shapes else []
 
             def run():
                 r = f(*args)
